@@ -100,6 +100,9 @@ type Guard struct {
 	Type    string
 	Fields  []string
 	Lock    string
+	// Keeping: guarded map fields whose entries are never replaced by a different value (rely/guarantee):
+	// other goroutines may add and remove entries, but an entry present before and after holds the same value.
+	Keeping []string
 }
 
 // AtAssert: an assertion at the first effectful instruction of a source line containing Text.
@@ -291,6 +294,15 @@ func (cs *Contracts) LoadFile(path string, pkgPath string, external bool) {
 				continue
 			}
 			g := Guard{PkgPath: pkgPath}
+			if kp := strings.SplitN(parts[1], " keeping ", 2); len(kp) == 2 {
+				parts[1] = kp[0]
+				for _, f := range strings.Split(kp[1], ",") {
+					tf := strings.SplitN(strings.TrimSpace(f), ".", 2)
+					if len(tf) == 2 {
+						g.Keeping = append(g.Keeping, tf[1])
+					}
+				}
+			}
 			lk := strings.SplitN(strings.TrimSpace(parts[1]), ".", 2)
 			if len(lk) != 2 {
 				fail(it, "expected lock as T.mu")
